@@ -51,7 +51,7 @@ class Unsupported(Exception):
 class SNode(object):
     __slots__ = ('kind', 'name', 'lineno', 'node', 'parent', 'children', 'bound', 'comp_bound', 'plain_bound',
                  'globals', 'nonlocals', 'uses', 'loads', 'sid', 'path', 'st', 'st_parent', 'st_children', 'idents',
-                 'names')
+                 'names', 'comp_sites')
 
     def __init__(self, kind, name, lineno, node, parent):
         self.kind = kind
@@ -74,6 +74,7 @@ class SNode(object):
         self.st_children = []     # CPython's child blocks (SNode / GenBlock)
         self.idents = set()       # identifiers CPython records in this block (mangled, as symtable keys them)
         self.names = set()        # the same, as written in the source
+        self.comp_sites = set()   # (line, col) of the comprehension iteration variables written in this scope
 
     def ancestors(self):
         p = self.parent
@@ -248,6 +249,7 @@ class TreeBuilder(ast.NodeVisitor):
         for n in ast.walk(t):
             if isinstance(n, ast.Name) and isinstance(n.ctx, ast.Store):
                 self.bind(n.id, comp=True)
+                self.cur.comp_sites.add((n.lineno, n.col_offset))
                 if isinstance(self.blk, GenBlock):
                     self.blk.targets.add(n.id)
         # attribute/subscript targets contain loads
@@ -534,6 +536,10 @@ class SuppRun(object):
         self.root = root
         self.by_node = {}
         self.by_classkey = {}
+        self.comp_sites = {}
+        for sc in all_scopes(root):
+            for site in sc.comp_sites:
+                self.comp_sites[site] = sc
         for sc in all_scopes(root):
             if sc.kind == K_MODULE:
                 continue
@@ -572,8 +578,15 @@ class SuppRun(object):
         for a in alts:
             if type(a) is UndefinedName or isinstance(a, UndefinedName):
                 continue
+            site = getattr(a, 'declared_at', None)
+            site = tuple(site) if isinstance(site, (tuple, list)) else None
             if isinstance(a, RuntimeName):
                 res.add(BUILTIN)
+            elif site in self.comp_sites and getattr(a, 'name', None) == node.id and not hasattr(a, 'module'):
+                # a comprehension iteration variable belongs to the scope its comprehension is written in,
+                # whichever table supp keeps it in (its `global` / `nonlocal` declarations do not apply to it)
+                sc = self.comp_sites[site]
+                res.add(MODULE if sc is self.root else sc)
             elif id(a) in self.global_ids:
                 res.add(MODULE)
             else:
@@ -692,6 +705,15 @@ class Gen(object):
         self.lines = []
         self.budget = 60
         self.comp_depth = 0     # comprehension nesting of the expression being generated
+        self.declared = [set()]  # names declared global / nonlocal by the scope being generated (stack)
+
+    def special_name(self):
+        """a comprehension variable / walrus target: often a name the current scope declares global or
+        nonlocal (the declarations do not apply to comprehension variables, they do to walrus targets)"""
+        d = self.declared[-1]
+        if d and self.rng.random() < 0.5:
+            return self.rng.choice(sorted(d))
+        return self.name()
 
     def name(self):
         return self.rng.choice(POOL)
@@ -718,13 +740,17 @@ class Gen(object):
                     params.append('%s=%s' % (p, self.name()))
                 else:
                     params.append(p)
+            if params and self.rng.random() < 0.2:
+                params.insert(self.rng.randint(1, len(params)), '/')
             cd, self.comp_depth = self.comp_depth, 0
+            self.declared.append(set())
             body = self.expr(depth + 1, bound | set(ps), False)
+            self.declared.pop()
             self.comp_depth = cd
             return '(lambda %s: %s)' % (', '.join(params), body)
         if r < 0.9 and allow_scope:
             # comprehension (merged into the enclosing scope by supp and by CPython 3.12)
-            t = self.name()
+            t = self.special_name()
             it = self.name()
             self.comp_depth += 1
             elt = self.expr(depth, bound, in_class, allow_scope=(depth < self.max_depth and not in_class))
@@ -734,7 +760,7 @@ class Gen(object):
                                     '{%s: 0 for %s in %s%s}'])
             return form % (elt, t, it, cond)
         if r < 0.95 and not in_class:
-            return '(%s := %s)' % (self.name(), self.name())
+            return '(%s := %s)' % (self.special_name(), self.name())
         return '%s.attr' % self.name()
 
     def emit(self, ind, text):
@@ -775,6 +801,14 @@ class Gen(object):
             self.emit(ind, 'global ' + ', '.join(sorted(g)))
         if n:
             self.emit(ind, 'nonlocal ' + ', '.join(sorted(n)))
+        self.declared.append(set(g) | set(n))
+        try:
+            self.body_statements(ind, depth, kind, inner_bound, will_bind, g, n, in_class)
+        finally:
+            self.declared.pop()
+
+    def body_statements(self, ind, depth, kind, inner_bound, will_bind, g, n, in_class):
+        rng = self.rng
         bindable = sorted(will_bind | g | n) or [self.name()]
         nst = rng.randint(1, 5)
         for _ in range(nst):
@@ -810,6 +844,8 @@ class Gen(object):
                     seen_default = True
                 else:
                     params.append(p)
+            if params and rng.random() < 0.25:
+                params.insert(rng.randint(1, len(params)), '/')     # positional-only parameters
             if rng.random() < 0.15:
                 params.append('*, k=%s' % self.name())
                 ps = ps + ['k']
@@ -937,7 +973,9 @@ def path_term(path):
     return '[' + ';'.join(str(i) for i in path) + ']%nat'
 
 
-def owner_term(o):
+def owner_term(o, reader=None):
+    if reader is not None and isinstance(o, SNode) and tuple(reader.path[:len(o.path)]) != tuple(o.path):
+        return '(OScope 4999)'      # a scope that does not enclose the reading scope: never predicted
     if o == GLOB:
         return 'OGlobal'
     if o == MODULE:
@@ -1009,7 +1047,7 @@ class FileCase(object):
         table = {n: i + 1 for i, n in enumerate(names)}
         intern = table.__getitem__
         rq = ';'.join('(%s,%d%%N,%s)' % (path_term(sc.path), intern(x), owner_term(o)) for sc, x, o in self.rq)
-        iq = ';'.join('(%s,%d%%N,[%s])' % (path_term(sc.path), intern(x), ';'.join(sorted(owner_term(o) for o in got)))
+        iq = ';'.join('(%s,%d%%N,[%s])' % (path_term(sc.path), intern(x), ';'.join(sorted(owner_term(o, sc) for o in got)))
                       for sc, x, got in self.iq)
         return '(%s, %s, %d%%nat, [%s], [%s])' % (tree_term(self.an.root, intern), nlist(intern(b) for b in self.builtins),
                                                   len(names), rq, iq)
